@@ -16,8 +16,8 @@ for f in open_:
     t2 += "| %s | `%s` | %s | %s |\n" % (f["property"], f["mechanism"], esc(f["what"]), esc(f["why_not_fixed"]))
 p = os.path.join(HERE, "DESIGN.md")
 s = open(p).read()
-s = re.sub(r"<!-- FIXED-TABLE -->.*?<!-- /FIXED-TABLE -->", "<!-- FIXED-TABLE -->\n" + t1 + "<!-- /FIXED-TABLE -->", s, flags=re.S)
-s = re.sub(r"<!-- OPEN-TABLE -->.*?<!-- /OPEN-TABLE -->", "<!-- OPEN-TABLE -->\n" + t2 + "<!-- /OPEN-TABLE -->", s, flags=re.S)
+s = re.sub(r"<!-- FIXED-TABLE -->.*?<!-- /FIXED-TABLE -->", lambda m: "<!-- FIXED-TABLE -->\n" + t1 + "<!-- /FIXED-TABLE -->", s, flags=re.S)
+s = re.sub(r"<!-- OPEN-TABLE -->.*?<!-- /OPEN-TABLE -->", lambda m: "<!-- OPEN-TABLE -->\n" + t2 + "<!-- /OPEN-TABLE -->", s, flags=re.S)
 # --- seeded changes table
 import glob
 rows = ""
